@@ -315,5 +315,33 @@ def rule_parcheck(ctx, prop: str) -> RuleResult:
     res.ob(applies)
     if not applies:
         res.add(Finding("PARCHECK", m.rel, run.lineno, run.qualname, "apply_proc", "ParallelAnalysis.run never traverses the procedure"))
+    # (d) storage class of allocations inside a parallel body.  The race check treats an
+    #     allocation in the loop body as private to the iteration; a memory whose alloc() text
+    #     is a `static` declaration is ONE object shared by all threads.  Either no library
+    #     memory is static, or the parallel analysis looks at the memory of allocations.
+    static_mems = []
+    for c2 in ix.all_classes():
+        al = c2.methods.get("alloc")
+        if al is None or not c2.file.startswith("src/exo/"):
+            continue
+        for n in al.body_nodes():
+            if isinstance(n, ast.Return) and n.value is not None:
+                for k in ast.walk(n.value):
+                    if isinstance(k, ast.Constant) and isinstance(k.value, str) and k.value.lstrip().startswith("static "):
+                        static_mems.append(c2)
+    ne = ix.module("src/exo/rewrite/new_eff.py")
+    chk = ne.funcs.get("Check_ParallelizeLoop")
+    looks_at_mem = any(isinstance(k, ast.Attribute) and k.attr == "mem" for fn in (ms, chk) if fn is not None for k in fn.body_nodes())
+    for c2 in static_mems:
+        res.instances += 1
+        res.nontrivial += 1
+        res.ob(looks_at_mem)
+        res.sample(f"memory {c2.name} allocates with static storage; the parallel analysis consults the memory of allocations: {looks_at_mem}")
+        if not looks_at_mem:
+            res.add(
+                Finding("PARCHECK", c2.file, c2.node.lineno, c2.name, "static-in-par",
+                        f"{c2.name}.alloc emits a `static` declaration, and neither ParallelAnalysis nor Check_ParallelizeLoop looks at the memory of an allocation: "
+                        f"`for i in par(..): t: f32[1] @ {c2.name}; t[0] = x[i]; y[i] = t[0]` is accepted as race-free although all threads share the one `static float t[1]`")
+            )
     res.floor = 5
     return res
